@@ -8,7 +8,7 @@ rc=0
 for d in workers/*/; do
   id=$(basename "$d")
   race=""
-  case "$id" in c01|c02|c06|c07|c09|c10|c11|c12) race="-race";; esac
+  case "$id" in c01|c02|c06|c07|c09|c10|c11|c12|c17) race="-race";; esac
   go build -tags verif $race -o ".bin/$id" "./$d" || rc=1
 done
 (cd /repo && go build -tags verif -o /verif/.bin/desync-verif ./cmd/desync) || rc=1
